@@ -30,7 +30,7 @@ def main():
     if sh("git -C %s apply --check %s" % (WT, patch)).returncode:
         print(sid, "PATCH-DOES-NOT-APPLY"); return 1
     readme = open(os.path.join(out, "demo", "README.txt")).read() if os.path.exists(os.path.join(out, "demo", "README.txt")) else ""
-    orig_wt = re.search(r"(/tmp/mut2?/C\d\d)\b", readme)
+    orig_wt = re.search(r"(/tmp/mut[234]?/C\d\d)\b", readme)
     orig_wt = orig_wt.group(1) if orig_wt else os.path.dirname(os.path.dirname(out)).rstrip("/") + "/" + prop
     # demo files and their destination package
     demos = []
